@@ -497,6 +497,13 @@ def replay(pid, path):
         if not ok:
             print("VIOLATION property=%s replay=%s" % (pid, path))
         return 0 if ok else 1
+    if kind == "stress":
+        p = V.sh([V.HARNESS, "stress"], env=V.GOENV, timeout=300)
+        print(p.stdout)
+        bad = [l for l in p.stdout.splitlines() if l.startswith(("violation", "error"))]
+        if bad:
+            print("VIOLATION property=%s replay=%s" % (pid, path))
+        return 1 if bad else 0
     if kind == "shutdown" and r.get("scenario"):
         import shutdown
         res = shutdown.run_one(r["scenario"])
